@@ -251,16 +251,16 @@ class Blakepadding(blockiterator):
         clen = self.wsize//4
         counter,_ = unpack(c[-clen:],bigend=True)
         c = list(c[:-clen])
-        b = Bits(c.pop())
+        b = Bits(bytes([c.pop()]))
         if self.hsize in (256,512):
             assert b[7]==1
             b[7]=0
-        if b.ival!=0: c.append(b.bytes())
-        while Bits(c[-1:]).ival==0:
+        if b.ival!=0: c.append(b.bytes()[0])
+        while c[-1]==0:
             c.pop()
         if len(c)==0: raise PaddingError("failed to remove padding")
-        b = Bits(c.pop())
+        b = Bits(bytes([c.pop()]))
         b.size=str(b).rfind('1')
-        return b''.join(c)+b.bytes()
+        return bytes(c)+b.bytes()
 
 #------------------------------------------------------------------------------
